@@ -19,7 +19,16 @@
 (*           produced: every accepted point is counted, under the output     *)
 (*           name the template gives for its name, whatever was looked up    *)
 (*           before                                                          *)
-EXTENDS AggCacheOps, Json, TLC, TLCExt, IOUtils
+(*  uhist  : a fresh route / destination with filter f at place `site` of a  *)
+(*           real table                                                      *)
+(*  update : Table.UpdateRoute / Table.UpdateDestination was called with the *)
+(*           options `set`, their new values in val (an empty value clears   *)
+(*           the option); the filter now has MatcherUpdOps!Merge of them     *)
+(*  uprobe : one line per name of `names` was sent through the table;        *)
+(*           obs[i] = what was observed for names[i].  It must be what the   *)
+(*           conjunction of the options the filter NOW has requires - none   *)
+(*           of the options it had before plays a part                       *)
+EXTENDS AggCacheOps, MatcherUpdOps, Json, TLC, TLCExt, IOUtils
 
 TLog == ndJsonDeserialize("trace.ndjson")
 
@@ -36,6 +45,8 @@ B(b) == IF b THEN 1 ELSE 0
 Expected(site, acc) ==
   CASE site = "blacklist"     -> <<B(~acc)>>          \* deliveries to a match-all route behind the blacklist
     [] site = "route"         -> <<B(acc)>>           \* deliveries to the destination of a route with filter f
+    [] site = "route_first"   -> <<B(acc)>>           \* the same for a sendFirstMatch route
+    [] site = "route_chash"   -> <<B(acc)>>           \* ... and a consistentHashing route (one destination)
     [] site = "dest_all"      -> <<B(acc), 1>>        \* sendAllMatch, destinations <<f, match-all>>
     [] site = "dest_first"    -> <<B(acc), B(~acc)>>  \* sendFirstMatch, destinations <<f, match-all>>
     [] site = "agg_keep"      -> <<1, B(acc)>>        \* <<route deliveries, aggregated points>>, dropRaw off
@@ -70,7 +81,17 @@ TTick == /\ Is("tick")
          /\ tcache' \in Cleaned(tcache, Ev.t, twait)
          /\ UNCHANGED <<tf, tt, tdrop, tnow, twait>>
 
-TNext == TSite \/ THist \/ TClock \/ TLookup \/ TTick
+\* -- filters reconfigured at run time
+TUHist == /\ Is("uhist") /\ tf' = Ev.f
+          /\ tt' = <<>> /\ tdrop' = TRUE /\ twait' = 1 /\ tcache' = <<>> /\ tnow' = 0 /\ pend' = <<>>
+TUpdate == /\ Is("update") /\ Ev.set # <<>>
+           /\ tf' = Merge(tf, Range(Ev.set), Ev.val)
+           /\ UNCHANGED <<tt, tdrop, tcache, tnow, twait, pend>>
+TUProbe == /\ Is("uprobe") /\ Len(Ev.obs) = Len(Ev.names)
+           /\ \A i \in 1..Len(Ev.names) : Ev.obs[i] = Expected(Ev.site, Accept(tf, Ev.names[i]))
+           /\ UNCHANGED <<tf, tt, tdrop, tcache, tnow, twait, pend>>
+
+TNext == TSite \/ THist \/ TClock \/ TLookup \/ TTick \/ TUHist \/ TUpdate \/ TUProbe
 TSpec == TInit /\ [][TNext]_tvars
 
 HighWater == TLCSet(1, IF l - 1 > TLCGet(1) THEN l - 1 ELSE TLCGet(1))
